@@ -95,12 +95,29 @@ func b64Char(s *Term) *Term { // s: BV8 in 0..63
 
 func init() {
 	// ugorji codec is not encoded: the serializers' data-item functions return
-	// an arbitrary outcome (error, or success with a zero payload)
+	// an arbitrary outcome (error, success with a zero payload, or success
+	// leaving the target untouched as for an encoded null)
 	for _, sname := range []string{"JSONSerializer", "MessagePackSerializer", "CBORSerializer"} {
 		base := "(*github.com/gammazero/nexus/v3/transport/serialize." + sname + ")."
+		sname := sname
 		reg(base+"DeserializeDataItem", func(x *Exec, g *G, a []Value) Value {
-			if x.chooseFree(2, "codec.deserialize") == 0 {
+			// the encoding of null is known for each format: concrete input
+			// bytes decide whether the "null" outcome applies, so that a
+			// counterexample through it replays against the real codec
+			nullEnc := map[string]string{"JSONSerializer": "null", "MessagePackSerializer": "\xc0", "CBORSerializer": "\xf6"}[sname]
+			outcomes := 3
+			if in := termBytes(a[1]); allConst(in) {
+				if string(concBytes(in)) == nullEnc {
+					return Iface{}
+				}
+				outcomes = 2
+			}
+			switch x.chooseFree(outcomes, "codec.deserialize") {
+			case 0:
 				return x.mkError(MkStr("codec: cannot decode"))
+			case 2:
+				// the bytes encode "null": success, the target is left as it is
+				return Iface{}
 			}
 			iv := a[2].(Iface)
 			if p, ok := iv.V.(*Value); ok && p != nil {
